@@ -11,6 +11,8 @@
 #include "base/json.hpp"
 #include "base/io-engine.hpp"
 #include "base/tlsstream.hpp"
+#include "base/scriptglobal.hpp"
+#include "base/namespace.hpp"
 #include "config/configitem.hpp"
 #include "config/expression.hpp"
 #include "icinga/host.hpp"
@@ -38,6 +40,9 @@ std::vector<ConfigObject::Ptr> l_Objs;     // in creation order
 ApiUser::Ptr l_User;
 std::string l_UserPerms;
 bool l_Init = false;
+// global constants declared by pm_glob in this case: name, whether it existed before, previous value
+struct PmSavedGlobal { String name; bool existed; Value old; };
+std::vector<PmSavedGlobal> l_SavedGlobals;
 
 std::vector<std::string> Split(const std::string& s, char sep)
 {
@@ -99,6 +104,16 @@ std::string FilterText(const std::string& rpn)
 			else if (k == 'v') st.push_back("(" + sc + ".vars." + HexDec(p.at(1)) + " == " + Quote(HexDec(p.at(2))) + ")");
 			else if (k == 'c') st.push_back("(" + sc + ".name == " + HexDec(p.at(1)) + ")");
 			else if (k == 'C') st.push_back("(" + HexDec(p.at(1)) + " == " + sc + ".name)");
+			// atoms with a free name (global constant / filter variable) and function calls
+			else if (k == 'w') st.push_back("(" + sc + ".vars." + HexDec(p.at(1)) + " == " + HexDec(p.at(2)) + ")");
+			else if (k == 'i') st.push_back("(" + sc + ".name in " + HexDec(p.at(1)) + ")");
+			else if (k == 'm') st.push_back("match(" + Quote(HexDec(p.at(1))) + ", " + sc + ".name)");
+			else if (k == 'M') st.push_back("match(" + HexDec(p.at(1)) + ", " + sc + ".name)");
+			else if (k == 'l') st.push_back("(len(" + sc + ".name) == " + p.at(1) + ")");
+			// demonstration only (notes/C18.md, observation get_object; never generated, not in the model):
+			// Gh:<hextype>:<hexname>:<hexkey>:<hexval>  =  get_object("<type>", "<name>").vars.<key> == "<val>"
+			else if (k == 'G') st.push_back("(get_object(" + Quote(HexDec(p.at(1))) + ", " + Quote(HexDec(p.at(2))) + ").vars." + HexDec(p.at(3)) + " == " + Quote(HexDec(p.at(4))) + ")");
+			else if (k == 'r') st.push_back("regex(" + Quote("^" + HexDec(p.at(1)) + "$") + ", " + sc + ".name)");
 			else throw std::runtime_error("bad atom " + tk);
 		}
 	}
@@ -121,6 +136,15 @@ void InitOnce()
 		"object Endpoint \"pm-m\" { }\nobject Zone \"pm-master\" { endpoints = [ \"pm-m\" ] }\n"
 		"object Endpoint \"pm-sat-a\" { }\nobject Zone \"pm-za\" { endpoints = [ \"pm-sat-a\" ]; parent = \"pm-master\" }\n"
 		"object Endpoint \"pm-sat-b\" { }\nobject Zone \"pm-zb\" { endpoints = [ \"pm-sat-b\" ]; parent = \"pm-master\" }\n");
+	// objects of DIFFERENT types that share a name (names are unique within a type only): CheckCommand, EventCommand,
+	// TimePeriod, Endpoint and Zone called pmx / pmy / pmz - the inventories add Hosts of these names
+	for (const char *n : { "pmx", "pmy", "pmz" }) {
+		std::string q = Quote(n);
+		LoadConfig("object CheckCommand " + q + " { command = [ \"/bin/true\" ] }\n"
+			"object EventCommand " + q + " { command = [ \"/bin/true\" ] }\n"
+			"object TimePeriod " + q + " { update = (tp, b, e) => { return [] } }\n"
+			"object Endpoint " + q + " { }\nobject Zone " + q + " { endpoints = [ " + q + " ]; parent = \"pm-master\" }\n");
+	}
 }
 
 void RemoveObject(const ConfigObject::Ptr& obj)
@@ -193,7 +217,13 @@ Dictionary::Ptr BuildQuery(const Args& a)
 		Dictionary::Ptr fv = new Dictionary();
 		for (auto& kv : Split(a.str("fv"), ',')) {
 			auto p = Split(kv, ':');
-			fv->Set(String(HexDec(p.at(0))), String(HexDec(p.at(1))));
+			const std::string& v = p.at(1);
+			if (!v.empty() && v[0] == '@') {
+				ArrayData d;
+				for (auto& x : Split(v.substr(1), '+')) d.push_back(String(HexDec(x)));
+				fv->Set(String(HexDec(p.at(0))), new Array(std::move(d)));
+			} else
+				fv->Set(String(HexDec(p.at(0))), String(HexDec(v)));
 		}
 		q->Set("filter_vars", fv);
 	}
@@ -236,6 +266,18 @@ VOP(pm_svc)
 {
 	l_Specs.push_back({true, HexDec(a.str("host")), HexDec(a.str("name")), a.str("vars", "-"),
 		HexDec(a.str("cc", "-")), HexDec(a.str("cp", "-")), HexDec(a.str("ec", "-")), HexDec(a.str("ce", "-"))});
+}
+
+// pm_glob name=<hex> s=<hex> | a=<hex,hex,..>   a global constant (string / array of strings) for the rest of the case
+VOP(pm_glob)
+{
+	String name = HexDec(a.str("name"));
+	Value v;
+	if (a.has("a")) v = HexArray(a.str("a")); else v = String(HexDec(a.str("s")));
+	Value old;
+	bool existed = ScriptGlobal::GetGlobals()->Get(name, &old);
+	l_SavedGlobals.push_back({name, existed, old});
+	ScriptGlobal::Set(name, v);
 }
 
 // pm_user perms=<entry>;<entry>..   entry = <hexperm> | <hexperm>@<rpn filter>
@@ -398,8 +440,11 @@ VOP(pm_http)
 		if (a.has("name")) target += "/" + UrlEnc(HexDec(a.str("name")));
 		if (kind == "query") {
 			verb = http::verb::get;
-			if (a.num("joins", 0) == 1) body->Set("joins", new Array({ String("host.name"), String("check_command") }));
+			ArrayData js;
+			if (a.num("joins", 0) == 1) { js.push_back(String("host.name")); js.push_back(String("check_command")); }
 			if (a.num("joins", 0) == 2) body->Set("all_joins", true);
+			for (auto& pfx : Split(a.str("jsel", "-"), ',')) js.push_back(String(pfx));     // bare prefixes, request order
+			if (!js.empty()) body->Set("joins", new Array(std::move(js)));
 		} else if (kind == "modify") {
 			verb = http::verb::post;
 			body->Set("attrs", new Dictionary({ { "notes", notes } }));
@@ -448,9 +493,18 @@ VOP(pm_http)
 		for (const Dictionary::Ptr& r : results) {
 			objs.push_back(tname + ":" + HexEnc(String(r->Get("name")).GetData()));
 			Dictionary::Ptr js = r->Get("joins");
-			if (js && js->Contains("host")) {
-				Dictionary::Ptr h = js->Get("host");
-				joins.push_back("Host:" + HexEnc(String(h->Get("name")).GetData()));
+			if (js) {
+				// every serialised joined object: <prefix>><type of that navigation field>:<name>
+				static const std::map<std::string, std::string> jt = { { "host", "Host" }, { "check_command", "CheckCommand" },
+					{ "check_period", "TimePeriod" }, { "event_command", "EventCommand" }, { "command_endpoint", "Endpoint" } };
+				ObjectLock jlock(js);
+				for (const Dictionary::Pair& kv : js) {
+					Dictionary::Ptr jo = kv.second;
+					std::string pfx = kv.first.GetData();
+					auto it = jt.find(pfx);
+					String nm = jo->Contains("name") ? jo->Get("name") : jo->Get("__name");
+					joins.push_back(pfx + ">" + (it == jt.end() ? std::string("?") : it->second) + ":" + HexEnc(nm.GetData()));
+				}
 			}
 		}
 	}
@@ -461,7 +515,7 @@ VOP(pm_http)
 	if (code != 404) {
 		o << " objs=" << JoinSorted(objs);
 		if (kind == "modify") o << " changed=" << JoinSorted(changed);
-		if (kind == "query" && a.num("joins", 0)) o << " joins=" << JoinSorted(joins);
+		if (kind == "query" && (a.num("joins", 0) || a.has("jsel"))) o << " joins=" << JoinSorted(joins);
 	} else if (!objs.empty() || !changed.empty()) {
 		o << " objs=" << JoinSorted(objs);      // a 404 that nevertheless acted on objects
 	}
@@ -482,6 +536,12 @@ struct PmCaseEnd {
 			l_Objs.clear();
 			l_Specs.clear();
 			l_UserPerms = "-";
+			// global constants declared by pm_glob: back to what they were before the case
+			for (auto it = l_SavedGlobals.rbegin(); it != l_SavedGlobals.rend(); ++it) {
+				if (it->existed) ScriptGlobal::Set(it->name, it->old);
+				else ScriptGlobal::GetGlobals()->Remove(it->name);
+			}
+			l_SavedGlobals.clear();
 		});
 	}
 } l_PmCaseEnd;
